@@ -163,6 +163,13 @@ pub fn run(args: &Args) {
             SentenceGen::new(&mut rng, budget).expression(&mut parts);
             let s = join_tokens(&parts, &mut rng);
             if let Some(m) = mutate_tokens(&s, &mut rng) {
+                // every third mutant gets a second, independent edit (near-misses two tokens away)
+                if k % 3 == 0 {
+                    if let Some(m2) = mutate_tokens(&m, &mut rng) {
+                        check_one(&mut rep, &m2, "two-token-mutant", &strict, false);
+                        note_distinct(&mut rep, &m2);
+                    }
+                }
                 let v = check_one(&mut rep, &m, "one-token-mutant", &strict, false);
                 note_distinct(&mut rep, &m);
                 if !v.crate_accepts {
